@@ -228,7 +228,7 @@ func (c *conn) Channel(ctx async.Context) (Channel, status.Status) {
 		// Wait for negotiation or close
 		select {
 		case <-ctx.Wait():
-			return nil, ctx.Status()
+			return nil, contextStatus(ctx)
 		case <-c.closed.Wait():
 			return nil, statusConnClosed
 		case <-c.handshaked.Wait():
@@ -287,7 +287,7 @@ func (c *conn) send(ctx async.Context, msg pmpx.Message) status.Status {
 		// Wait for space
 		select {
 		case <-ctx.Wait():
-			return ctx.Status()
+			return contextStatus(ctx)
 		case <-c.writeq.WriteWait(len(b)):
 			continue
 		}
